@@ -554,8 +554,28 @@ def pdo_lookup(chk, rule: str):
                       f"after clear()/read() a lookup by name or index returns a variable with the previous offset and length")
     # (ii) first match in map order
     n_forms = 0
+    def over_map(m_, it):
+        """Does the loop iterate the current map in map order (directly, or a list/tuple/filtered list comprehension of it)?"""
+        for _ in range(3):
+            if src(it) == "self.map":
+                return True
+            if isinstance(it, ast.Name):
+                ds = [n for n in own_nodes(m_.node) if isinstance(n, ast.Assign) and len(n.targets) == 1 and src(n.targets[0]) == it.id]
+                if len(ds) != 1:
+                    return False
+                it = ds[0].value
+                continue
+            if isinstance(it, ast.Call) and dotted(it.func) in ("list", "tuple") and len(it.args) == 1:
+                it = it.args[0]
+                continue
+            if isinstance(it, (ast.ListComp, ast.GeneratorExp)) and len(it.generators) == 1 and isinstance(it.generators[0].target, ast.Name) \
+                    and src(it.elt) == it.generators[0].target.id:
+                it = it.generators[0].iter          # [v for v in self.map if ...]: a sub-sequence in map order
+                continue
+            return False
+        return False
     for mname, m in search.items():
-        for lp in [n for n in own_nodes(m.node) if isinstance(n, ast.For) and src(n.iter) == "self.map"]:
+        for lp in [n for n in own_nodes(m.node) if isinstance(n, ast.For) and over_map(m, n.iter)]:
             v = src(lp.target)
             for r in [x for x in ast.walk(lp) if isinstance(x, ast.Return) and x.value is not None and src(x.value) == v]:
                 n_forms += 1
